@@ -348,6 +348,16 @@ class LexicalAbc(Lexical, metaclass=LexicalAbcMeta, lexcopy=True):
     def __getnewargs__(self):
         return self.spec
 
+    def __reduce_ex__(self, protocol):
+        # The cached hash is specific to the interpreter process (string
+        # hashing is randomized), so it must not travel with the pickle.
+        rv = super().__reduce_ex__(protocol)
+        try:
+            rv[2][1].pop('_hash', None)
+        except (IndexError, TypeError, AttributeError):
+            pass
+        return rv
+
 
 class LexicalEnum(Lexical, LangCommonEnum, lexcopy=True):
     """Base class for Enum lexical classes. Subclassed by :class:`Quantifier`
